@@ -690,6 +690,11 @@ type nameState struct {
 	pastNamed    bool  // the name had an earlier life (ended by Remove) in which a call registering it carried a named request
 	namedBy      bool  // a Register/Replace call of another callback (live or removed since) names it in Before/After
 	alts         []int // multi: the older handlers, still acceptable
+	// multi: the requests carried by the call that made the NEWEST entry of the name (a Register under
+	// the existing name, or a Replace carrying Before/After). Whatever becomes of the older entries,
+	// this call asked for a side and returned nil: the handler of the name that fires has to be there.
+	lastBef, lastAft int
+	lastReplace      bool // that call was a Replace
 	dead         []int // handlers that belonged to the name when a Remove hit it (this and earlier lives)
 	removedMulti bool  // the Remove that ended the current/last life hit a multi name
 }
@@ -728,6 +733,7 @@ func model(p *pipeline, seq []step) map[int]*nameState {
 				// a second entry under a name that exists
 				ns.alts = append(ns.alts, ns.handler)
 				ns.handler, ns.multi, ns.mustLast = i, true, false
+				ns.lastBef, ns.lastAft, ns.lastReplace = int(s.Bef), int(s.Aft), false
 			} else {
 				// (a built-in name that was removed and is registered anew is no built-in any more: unspecified)
 				fresh(n, &nameState{live: true, weak: n < userBase, handler: i, bef: int(s.Bef), aft: int(s.Aft), mustLast: true})
@@ -742,6 +748,7 @@ func model(p *pipeline, seq []step) map[int]*nameState {
 				} else {
 					ns.alts = append(ns.alts, ns.handler)
 					ns.handler, ns.multi, ns.mustLast = i, true, false
+					ns.lastBef, ns.lastAft, ns.lastReplace = int(s.Bef), int(s.Aft), true
 				}
 			} else {
 				fresh(n, &nameState{live: true, weak: true, handler: i, bef: none, aft: none, mustLast: true})
@@ -1497,6 +1504,44 @@ func requirements(p *pipeline, m map[int]*nameState, withWeak bool) (out []req, 
 	}
 	for _, id := range ids {
 		ns := m[id]
+		if ns.live && ns.multi && !ns.weak && id < idNX {
+			// a name with several entries: the named requests of the call that made the newest entry
+			// (that call returned nil, so the name has to fire on the side it asked for - whichever of
+			// the name's handlers it is that fires)
+			for side, t := range []int{ns.lastBef, ns.lastAft} {
+				if t == none || t == idStar || t == id {
+					continue
+				}
+				ts := m[t]
+				if ts == nil || !ts.live {
+					continue
+				}
+				if ts.weak && !withWeak {
+					skipped++
+					continue
+				}
+				word, class := "before", "side:before"
+				if side == 1 {
+					word, class = "after", "side:after"
+				}
+				how := "registered again"
+				if ns.lastReplace {
+					class += ":replace-request"
+					how = "Replace'd"
+				} else {
+					class += ":multi-entry"
+				}
+				if ts.multi {
+					class += ":multi-target"
+				}
+				text := fmt.Sprintf("%s existed and was %s %s %s (the call returned nil) but fired on the other side of it", p.nameOf(id), how, word, p.nameOf(t))
+				if side == 0 {
+					out = append(out, req{id, t, class, text})
+				} else {
+					out = append(out, req{t, id, class, text})
+				}
+			}
+		}
 		if !ns.live || ns.unspec() || id < userBase {
 			continue
 		}
@@ -1548,9 +1593,14 @@ func requirements(p *pipeline, m map[int]*nameState, withWeak bool) (out []req, 
 			if ts == nil || !ts.live {
 				continue
 			}
-			if ts.unspec() && !withWeak {
+			if ts.weak && !withWeak {
 				skipped++
 				continue
+			}
+			if ts.multi {
+				// the named callback has several entries: where it fires is not fixed, but it fires once,
+				// and this callback asked for a side of it
+				class += ":multi-target"
 			}
 			mk(t, class, fmt.Sprintf("%s was registered %s %s but fired on the other side of it", p.nameOf(id), word, p.nameOf(t)))
 		}
